@@ -390,7 +390,8 @@ impl QosPolicies {
     // check Ownership:
     // offered kind == requested kind
     if let (Some(off), Some(req)) = (self.ownership, other.ownership) {
-      if off != req {
+      // Only the kind is matched; strength is a writer-side value and not part of the rule.
+      if std::mem::discriminant(&off) != std::mem::discriminant(&req) {
         return Some(QosPolicyId::Ownership);
       }
     }
